@@ -21,7 +21,8 @@ type depWalker struct {
 	// fieldStores[f] lists stores to field addresses in function f, computed lazily
 	fstores map[*ssa.Function][]*ssa.Store
 	// stop, when set, prevents traversal through a value (the value itself is still tested)
-	stop func(ssa.Value) bool
+	stop  func(ssa.Value) bool
+	depth int
 }
 
 // dependsOn reports whether the backward slice of v contains a value satisfying pred.
@@ -102,6 +103,10 @@ func (w *depWalker) walk(v ssa.Value) {
 		w.walkFreeVar(x)
 	case *ssa.Parameter, *ssa.Const, *ssa.Global, *ssa.Function, *ssa.Builtin:
 	case *ssa.Extract:
+		// component of a repository function's result: what that function returns there
+		if call, ok := x.Tuple.(*ssa.Call); ok && (w.stop == nil || !w.stop(call)) {
+			w.walkCalleeReturns(call, x.Index)
+		}
 		w.walk(x.Tuple)
 	case *ssa.Next:
 		w.walk(x.Iter)
@@ -121,6 +126,9 @@ func (w *depWalker) walk(v ssa.Value) {
 		for _, a := range cc.Args {
 			w.walk(a)
 		}
+		if cc.Signature().Results().Len() == 1 {
+			w.walkCalleeReturns(x, 0)
+		}
 	default:
 		if in, ok := v.(ssa.Instruction); ok {
 			for _, op := range in.Operands(nil) {
@@ -130,6 +138,26 @@ func (w *depWalker) walk(v ssa.Value) {
 			}
 		}
 	}
+}
+
+// walkCalleeReturns: the idx-th result of a call to a bluge function (or local closure)
+// with a body depends on what that function returns in that position (an extracted
+// helper must not hide a dependence). Bounded depth.
+func (w *depWalker) walkCalleeReturns(call *ssa.Call, idx int) {
+	callee := call.Common().StaticCallee()
+	if callee == nil || callee.Blocks == nil || w.depth >= 3 {
+		return
+	}
+	if p := funcPkgPath(callee); len(p) < len(modPath) || p[:len(modPath)] != modPath {
+		return
+	}
+	w.depth++
+	eachInstr(callee, func(in ssa.Instruction) {
+		if r, ok := in.(*ssa.Return); ok && idx < len(r.Results) {
+			w.walk(r.Results[idx])
+		}
+	})
+	w.depth--
 }
 
 // walkLoad: dependencies of the value loaded from address addr.
